@@ -150,6 +150,12 @@ def judge(acc, cls, model, payload, ref_ctc_asts=None, removed_names=()):
 
     feats, rels, owner, parent = walk(model)
     byid = {id(f): f for f in feats}
+    # ---- names that left the tree (edit histories) are looked up FIRST, before any other query can make the
+    # library refresh whatever it may have cached
+    present = {f.name for f in feats}
+    for nm in removed_names:
+        if nm not in present and model.get_feature_by_name(nm) is not None:
+            bad("lookup-by-name", "FeatureModel.get_feature_by_name", f"{nm!r} is no longer in the tree but is still found")
     # ---- listings contain each element exactly once
     lf = model.get_features()
     if ids(lf) != ids(feats):
